@@ -174,6 +174,16 @@ type c06Leaf struct {
 	goVal interface{} // non-nil: a context variable with this Go value
 	probe int         // 1: counting helper returning true, 2: counting helper returning false
 	mag   bool        // a value outside the everyday range (see c06ExtPool)
+	vr    bool        // a variable whose binding is an INPUT of the case (oracle_c06_env.go), not fixed by the pool
+	bind  string      // vr: name of the value it is bound to (c06EnvVals); "" = bound by the environments of the case
+}
+
+// token of the leaf in the s-expression
+func (l *c06Leaf) tok() string {
+	if l.vr && l.bind != "" {
+		return l.name + ":" + l.bind
+	}
+	return l.name
 }
 
 func (l *c06Leaf) src() string {
@@ -264,7 +274,7 @@ func c06LeafByName(n string) *c06Leaf {
 			return l
 		}
 	}
-	return nil
+	return c06VarLeafByTok(n)
 }
 
 func c06LeavesOf(k c06Kind, pool []*c06Leaf) []*c06Leaf {
@@ -340,7 +350,7 @@ func (n *c06Node) hasMag() bool {
 func (n *c06Node) sexpr() string {
 	switch {
 	case n.isLeaf():
-		return n.leaf.name
+		return n.leaf.tok()
 	case n.isUnary():
 		return "(! " + n.l.sexpr() + ")"
 	}
@@ -589,6 +599,9 @@ func c06Eval(n *c06Node, cnt *c06Counts) c06Res {
 	ok := func(v c06Val) c06Res { return c06Res{class: c06OK, v: v} }
 	switch {
 	case n.isLeaf():
+		if n.leaf.vr && n.leaf.bind == "" {
+			return c06Res{class: c06Unspec} // no binding, no value (never evaluated: see c06BindTree)
+		}
 		switch n.leaf.probe {
 		case 1:
 			cnt.ct++
